@@ -1,4 +1,87 @@
-//! C15 — stub, not built yet.
+//! C15 — how a program is driven does not change what it does.
+//! Oracle (implementation only): the six drive modes {eval, compile+run, compile+step*} × recording
+//! {off, on} end in the same machine (dump minus the reverse log), result and stdout.
+//! Correspondence: the model drives the *same bytecode* by `run` and by `next`*, recording off/on.
+use crate::progen::{gen_program, GenCfg};
+use crate::vmcanon;
 use crate::Ctx;
+use xeh::prelude::*;
 
-pub fn run(_ctx: &mut Ctx) {}
+const LIMIT: usize = 3000;
+
+fn finish(xs: &mut Xstate, r: &Xresult) -> String {
+    let d = xs.verif_dump();
+    let out = xs.stdout().map(|s| s.clone()).unwrap_or_default();
+    format!("{} | {} | out={} | loc={:?}", vmcanon::outcome(r), vmcanon::core_dump(&d), crate::canon::hex(out.as_bytes()),
+        xs.last_err_location().map(|l| (l.line, l.col, l.token.to_string())))
+}
+
+pub fn run(ctx: &mut Ctx) {
+    let base = Xstate::boot().unwrap();
+    let cfg = GenCfg { endless: true, ..GenCfg::default() };
+    let mut n_done = 0;
+    while n_done < ctx.n {
+        let (src, tags) = gen_program(&mut ctx.rng, &cfg);
+        n_done += 1;
+        for t in tags.iter() { ctx.tag(&format!("prog:{}", t)); }
+        let mut results: Vec<(String, String)> = Vec::new();
+        for rec in [false, true] {
+            for mode in ["eval", "run", "step"] {
+                let mut xs = base.clone();
+                xs.intercept_stdout(true);
+                xs.set_recording_enabled(rec);
+                xs.set_insn_limit(Some(LIMIT)).unwrap();
+                let r = crate::guarded(|| match mode {
+                    "eval" => xs.eval(&src),
+                    "run" => xs.compile(&src).and_then(|_| xs.run()),
+                    _ => xs.compile(&src).and_then(|_| {
+                        let mut r = Ok(());
+                        let mut guard = 0;
+                        while xs.is_running() && guard < 10 * LIMIT {
+                            guard += 1;
+                            r = xs.next();
+                            if r.is_err() { break; }
+                        }
+                        r
+                    }),
+                });
+                let text = match r { Some(r) => finish(&mut xs, &r), None => "panic".into() };
+                results.push((format!("{}/{}", mode, if rec { "rec" } else { "norec" }), text));
+            }
+        }
+        let first = results[0].1.clone();
+        let all_same = results.iter().all(|(_, t)| *t == first);
+        ctx.tag(if first.starts_with("ok") { "result:ok" } else if first.contains("limit reached") { "result:limit" } else { "result:err" });
+        let obs = results.iter().map(|(m, t)| format!("{}: {}", m, t)).collect::<Vec<_>>().join("\n");
+        ctx.check(all_same, || format!("C15 `{}`", src), || format!("all six drive modes end like eval/norec: {}", first), || obs);
+        // correspondence on the compiled bytecode: run vs step*, recording off/on
+        let mut xs = base.clone();
+        xs.intercept_stdout(true);
+        xs.set_insn_limit(Some(LIMIT)).unwrap();
+        if !matches!(crate::guarded(|| xs.compile(&src)), Some(Ok(()))) { ctx.tag("skipped:build-error"); continue; }
+        let setup = vmcanon::setup_str(&xs, (Some(LIMIT), None, None));
+        let rec = ctx.rng.bool();
+        let stepwise = ctx.rng.bool();
+        let mut ys = xs.clone();
+        ys.set_recording_enabled(rec);
+        let mut script: Vec<String> = vec![format!("rec={}", if rec { 1 } else { 0 })];
+        let mut answers: Vec<String> = vec![format!("ok@{}", vmcanon::full_dump(&mut ys))];
+        if stepwise {
+            let mut guard = 0;
+            while ys.is_running() && guard < 400 {
+                guard += 1;
+                let r = match crate::guarded(|| ys.next()) { Some(r) => r, None => { script.push("n".into()); answers.push("panic@".into()); break } };
+                script.push("n".into());
+                answers.push(format!("{}@{}", vmcanon::outcome(&r), vmcanon::full_dump(&mut ys)));
+                if r.is_err() { break; }
+            }
+        } else {
+            match crate::guarded(|| ys.run()) {
+                Some(r) => { script.push("R".into()); answers.push(format!("{}@{}", vmcanon::outcome(&r), vmcanon::full_dump(&mut ys))); }
+                None => { script.push("R".into()); answers.push("panic@".into()); }
+            }
+        }
+        ctx.tag(&format!("drive:{}/{}", if stepwise { "step" } else { "run" }, if rec { "rec" } else { "norec" }));
+        ctx.case(format!("C15 vm {} view=full script={}", setup, script.join(",")), answers.join(" ; "));
+    }
+}
